@@ -51,12 +51,19 @@ def reader_rules(ctx, R):
                   "same (code, text, content) and error fields" % (mev[1], len(STREAMS)))
     else:
         ctx.notice("M7", "the interpreter cannot follow the readers; the structural rules M1-M6 decide")
+    # M3-M6 describe ONE way of reading exactly (slice the buffer, ask for the remaining count, search from the start ...): they are
+    # sufficient, not necessary.  When the evaluation followed the readers through every delivery they do not report any more.
+    ctx._m7_ok = bool(mev is not None and mev[0] == "ok")
+    prev = ctx.demote(("M3", "M4", "M5", "M6"), "the evaluation of the readers (M7)") if ctx._m7_ok else None
     try:
         _reader_rules_structural(ctx, R)
     except AnalysisError as e:
         if mev is None:
             raise
         ctx.notice(e.rule, "reader idiom not recognised by the structural rule (%s); the readers are decided by evaluation (M7)" % e.why)
+    finally:
+        if prev is not None:
+            ctx.restore(prev)
 
 
 def _reader_rules_structural(ctx, R):
@@ -872,6 +879,8 @@ STREAMS = [
     [b'"a"\r\nOK\r\n', b"OK\r\n"],                      # two replies back to back: the second must be untouched by the first
     [b"{6}\r\nab\r\ncd\r\nOK\r\n", b'"n"\r\nOK\r\n'],
     [b"NO {5}\r\nhello\r\n", b"OK\r\n"],
+    [b'"caf\xc3\xa9"\r\n"\xe2\x82\xac" ACTIVE\r\nOK "\xc3\xa9t\xc3\xa9"\r\n'],   # multi-byte characters: a cut may fall inside one
+    [b"{8}\r\n# \xc3\xa9\xc3\xa0\r\n\r\nOK\r\n"],
 ]
 
 
@@ -912,7 +921,7 @@ def reader_eval(ctx, R, thorough=False):
                     base.setdefault("%s.%s" % (sn, st_.targets[0].attr), fd.Const(v))
                 elif isinstance(st_.value, ast.Call) and isinstance(st_.value.func, ast.Name) and st_.value.func.id in ("bytearray", "bytes") \
                         and not st_.value.args:
-                    base.setdefault("%s.%s" % (sn, st_.targets[0].attr), fd.Const(b""))
+                    base.setdefault("%s.%s" % (sn, st_.targets[0].attr), fd.Const(bytearray() if st_.value.func.id == "bytearray" else b""))
     base["%s.%s" % (sn, unmangled(R, R.buffer_attr))] = base.get("%s.%s" % (sn, unmangled(R, R.buffer_attr)), fd.Const(b""))
 
     def exc_fields(name, args):
@@ -960,11 +969,15 @@ def reader_eval(ctx, R, thorough=False):
             return [(fd.Const(len(args[0].v)), None)]
         return None
 
-    def deliver(stream, cuts):
+    rs_key = next((k for k in base if k.endswith(".read_size")), None)
+
+    def deliver(stream, cuts, read_size=None):
         whole = b"".join(stream)
         pts = [0] + sorted(set(c for c in cuts if 0 < c < len(whole))) + [len(whole)]
         chunks = tuple(whole[a:b] for a, b in zip(pts, pts[1:]) if b > a)
-        env = dict(base)
+        env = {k: (fd.Const(bytearray(v.v)) if isinstance(v, fd.Const) and isinstance(v.v, bytearray) else v) for k, v in base.items()}
+        if read_size is not None and rs_key is not None:
+            env[rs_key] = fd.Const(read_size)  # a small receive size stands for replies longer than the real one
         env["@chunks"] = fd.Const(chunks)
         env["@ci"] = fd.Const(0)
         results = []
@@ -980,6 +993,8 @@ def reader_eval(ctx, R, thorough=False):
                 return None
             p = ps[0]
             if p.kind == "raise":
+                if it.unknowns and p.value not in ("Error", "UnicodeDecodeError"):
+                    return None  # an exception after a call the interpreter could not follow proves nothing
                 results.append(("raise", p.value))
                 break
             v = p.value
@@ -1004,16 +1019,20 @@ def reader_eval(ctx, R, thorough=False):
         L = len(whole)
         step = 1 if (thorough or L <= 24) else 2
         schedules = [[c] for c in range(1, L, step)] + [list(range(1, L))] + [[c, c + 1] for c in range(1, L - 1, 3)] + [[c, L - 2] for c in range(2, L - 3, 5)]
-        for cuts in schedules:
-            got = deliver(stream, cuts)
+        runs = [(c_, None) for c_ in schedules]
+        if rs_key is not None:
+            runs += [([], 7), ([], 3), ([L // 2], 5), ([L // 3, 2 * L // 3], 16)]
+        for cuts, rsz in runs:
+            got = deliver(stream, cuts, rsz)
             if got is None:
                 return None
             n += 1
             if got != ref:
                 pts = sorted(set(cuts))
                 shown = [whole[a:b] for a, b in zip([0] + pts, pts + [L])]
-                return ("bad", "the reply stream %r delivered as %s is read as %r; delivered in one segment it is read as %r"
-                        % (whole, shown if len(shown) <= 4 else "%d one-octet segments" % len(shown), got, ref))
+                return ("bad", "the reply stream %r delivered as %s%s is read as %r; delivered in one segment it is read as %r"
+                        % (whole, shown if len(shown) <= 4 else "%d one-octet segments" % len(shown),
+                           " with a receive size of %d" % rsz if rsz else "", got, ref))
     return ("ok", n)
 
 
